@@ -72,6 +72,19 @@ func loaderScenarios() []scenario {
 			}
 		}
 	}
+	// scale scenario: a wide include tree whose mid-level files include a leaf each
+	// (resource limits in the loader only bite when many files are in flight)
+	wide := map[string]string{}
+	var rootInc strings.Builder
+	var wideCensus []string
+	for i := 0; i < 70; i++ {
+		fmt.Fprintf(&rootInc, "include \"m%02d.knut\"\n", i)
+		wide[fmt.Sprintf("m%02d.knut", i)] = trxAt("2020-01-30", fmt.Sprintf("mid %02d", i)) + fmt.Sprintf("include \"l%02d.knut\"\n", i)
+		wide[fmt.Sprintf("l%02d.knut", i)] = trxAt("2020-01-31", fmt.Sprintf("leaf %02d", i))
+		wideCensus = append(wideCensus, fmt.Sprintf(`"mid %02d"`, i), fmt.Sprintf(`"leaf %02d"`, i))
+	}
+	wide["root.knut"] = rootInc.String() + root
+	ss = append(ss, scenario{Name: "load-wide-141-files-print", Files: wide, Args: []string{"print", "root.knut"}, Census: wideCensus})
 	// two different errors in two files: either may win
 	fs := map[string]string{"root.knut": flat["root.knut"], "a.knut": a + plants[0].text, "b.knut": b + plants[1].text}
 	ss = append(ss, scenario{Name: "load-flat-two-errors", Files: fs, Args: []string{"check", "root.knut"}, WantErr: []string{plants[0].want, plants[1].want}})
@@ -346,7 +359,16 @@ func c19Run(e *core.Env) {
 			continue
 		}
 		maxExec := core.Pick(e, 200000, 1500000)
-		key, detail, picks, st, nout := c19Scenario(e, drv, sc, bounds, maxExec)
+		scBounds := bounds
+		if strings.Contains(sc.Name, "-wide-") {
+			// hundreds of goroutines: the default schedule (quick) plus every single deviation (thorough)
+			scBounds = core.Pick(e, core.Bounds{Preempt: 0, Free: 0}, core.Bounds{Preempt: 1, Free: 1, Total: 1})
+			maxExec = core.Pick(e, 10, 30000)
+			drv.Horizon = 200000
+		} else {
+			drv.Horizon = 0
+		}
+		key, detail, picks, st, nout := c19Scenario(e, drv, sc, scBounds, maxExec)
 		e.AddStats(st)
 		e.Add("evaluations", st.Executions)
 		if st.Executions > 1 {
